@@ -124,9 +124,12 @@ class Ctx:
         d = os.path.join(VERIF, "replays", self.prop)
         os.makedirs(d, exist_ok=True)
         path = os.path.join(d, safe + ".json")
-        with open(path, "w") as f:
-            json.dump({"property": self.prop, "key": key, "what": what, "case": case,
-                       "seed": self.seed, "tier": self.tier}, f, indent=1, default=str)
+        if len(self.violations) < 200:  # a massive breakage must not flood the disk
+            with open(path, "w") as f:
+                json.dump({"property": self.prop, "key": key, "what": what, "case": case,
+                           "seed": self.seed, "tier": self.tier}, f, indent=1, default=str)
+        else:
+            path = self.violations[0][2]
         if len(self.violations) < 50:
             print("VIOLATION property=%s replay=%s" % (self.prop, path))
             print("  key=%s: %s" % (key, what))
